@@ -119,6 +119,7 @@ Proof.
                        | |- context [match each_of ?a ?b with _ => _ end] => destruct (each_of a b)
                        end; reflexivity.
 Qed.
+Print Assumptions observers_pure.
 
 Theorem C18_model_observers_pure : forall c s o, is_observer o = true -> fst (fst (step c s o)) = s.
 Proof. exact observers_pure. Qed.
